@@ -65,7 +65,11 @@ def main():
             "kind_free_text": "hand-written bounded-exhaustive explorer: indexable finite spaces of executions "
                               "(event histories up to a depth, products of branch-forcing alphabets, fault placements) "
                               "are enumerated completely on the real code over 16 forked workers and compared with "
-                              "stdlib-only reference models; no sampling, no solver",
+                              "stdlib-only reference models; every sub-check additionally as all ordered pairs of an "
+                              "alphabet of its own cases, each pair isolated in a forked child (histories over different "
+                              "objects: mc/crosstalk.py), objects of a finished case mutated in place (mc/scribble.py), "
+                              "differential references computed in pristine forked processes (mc/refserver.py); "
+                              "no sampling, no solver",
         }],
         "checks": checks,
         "not_applicable": na,
